@@ -12,6 +12,7 @@ import logging
 
 import someip.sd as SD
 from contracts import looplib as LL
+from contracts.common import check_frame
 
 TTL_FOREVER = 0xFFFFFF
 
@@ -42,6 +43,7 @@ class World:
                     known = True
             if not known:
                 self.slots[(addr, key)] = self.state(addr, key)
+        self.snap = vc.snapshot(ts=self.ts)
 
     # ---- generators of the unbounded contents
     def gen_addr(self, vc, name):
@@ -100,6 +102,10 @@ class World:
                     if st[1] is not None:
                         vc.check(not st[1].cancelled_, label + ".frame.timer_not_cancelled")
 
+    def check_frame(self, label):
+        """the store is the whole state of a TimedStore: nothing else of it changes"""
+        check_frame(self.vc, self.snap, label, ("ts.store*",))
+
     def check_invariant(self, label, skip_addr=None):
         """store invariant: every live timer the loop knows of carries _expired(addr, key)
         for an entry that is present and holds exactly that handle (a stale timer cannot
@@ -151,6 +157,7 @@ def ob_refresh(vc):
     vc.check_eq(len(w.loop.ready), 0, "refresh.defers_nothing")
     w.check_untouched("refresh", [(w.A, w.k0)])
     w.check_invariant("refresh")
+    w.check_frame("refresh")
 
 
 def ob_refresh_rejected(vc):
@@ -170,6 +177,7 @@ def ob_refresh_rejected(vc):
     vc.check_eq(len(w.loop.timers), n_timers, "refresh.rejected_entry_arms_no_timer")
     vc.check_eq(w.events, [], "refresh.rejected_entry_not_reported")
     w.check_untouched("refresh_rejected", [(w.A, w.k0)])
+    w.check_frame("refresh_rejected")
 
 
 def ob_stop(vc):
@@ -190,6 +198,7 @@ def ob_stop(vc):
     vc.check_eq(len(w.loop.ready), 0, "stop.defers_nothing")
     w.check_untouched("stop", [(w.A, w.k0)])
     w.check_invariant("stop")
+    w.check_frame("stop")
 
 
 def ob_expired(vc):
@@ -207,6 +216,7 @@ def ob_expired(vc):
     vc.check_eq(w.loop.now, st[1].when, "expired.fires_at_its_deadline")
     w.check_untouched("expired", [(w.A, w.k0)])
     w.check_invariant("expired")
+    w.check_frame("expired")
     vc.check(not w.loop.fire(st[1]), "expired.fires_at_most_once")
 
 
@@ -266,6 +276,7 @@ def ob_stop_all_for_address(vc):
     skip = [s for s in w.slots if s[0] == w.A]
     w.check_untouched("stop_all_for_address", skip)
     w.check_invariant("stop_all_for_address", skip_addr=w.A)
+    w.check_frame("stop_all_for_address")
 
 
 def ob_stop_all(vc):
@@ -276,6 +287,7 @@ def ob_stop_all(vc):
     o = vc.outcome(vc.body(SD.TimedStore.stop_all), w.ts)
     vc.check(o.kind != "raise", "stop_all.never_raises")
     vc.check_eq(len(w.loop.ready), 0, "stop_all.defers_nothing")
+    w.check_frame("stop_all")
     if vc.native:
         vc.check_eq(len(w.ts.store), 0, "stop_all.store_emptied")
         gone = snap
